@@ -10,6 +10,7 @@ import (
 	"sort"
 	"strconv"
 	"strings"
+	"sync"
 	"time"
 
 	"golang.org/x/tools/go/ssa"
@@ -46,7 +47,12 @@ func discharge(dir string, qs []*Query, timeout time.Duration) []Verdict {
 	var real []*Query
 	idx := map[*Query]int{}
 	out := make([]Verdict, len(qs))
+	covers := map[string][]int{}
 	for i, q := range qs {
+		if q.Cover {
+			covers[q.Name] = append(covers[q.Name], i)
+			continue
+		}
 		switch q.Text {
 		case "":
 			out[i] = Verdict{Q: q, Result: "unsat", Backend: "syntactic"}
@@ -59,10 +65,36 @@ func discharge(dir string, qs []*Query, timeout time.Duration) []Verdict {
 			real = append(real, q)
 		}
 	}
+	// covers: one satisfiable path per obligation is enough; short budget, stop at the first hit
+	var cwg sync.WaitGroup
+	csem := make(chan struct{}, 4)
+	for _, ids := range covers {
+		cwg.Add(1)
+		go func(ids []int) {
+			defer cwg.Done()
+			csem <- struct{}{}
+			defer func() { <-csem }()
+			found := false
+			tried := 0
+			for _, i := range ids {
+				if found || tried >= 4 {
+					out[i] = Verdict{Q: qs[i], Result: "skipped", Backend: "none"}
+					continue
+				}
+				tried++
+				v := runQuery(dir, qs[i], 1500*time.Millisecond, false)
+				out[i] = v
+				if v.Result == "sat" {
+					found = true
+				}
+			}
+		}(ids)
+	}
 	vs := runAll(dir, real, timeout, runtime.NumCPU())
 	for k, v := range vs {
 		out[idx[real[k]]] = v
 	}
+	cwg.Wait()
 	return out
 }
 
@@ -103,7 +135,7 @@ func groupObligations(vs []Verdict) map[string]*Obligation {
 			if v.Result == "sat" {
 				anySat = true
 			}
-			if v.Result != "unsat" {
+			if v.Result != "unsat" && v.Result != "skipped" {
 				allUnsat = false
 			}
 		}
@@ -166,8 +198,8 @@ func (e *Engine) funcsForProperty(prop string) []string {
 			if b := e.cs.Funcs[n]; b != nil && (b.First("skip") != nil) {
 				continue
 			}
-			// closures are analysed inline with their parent unless they are spawned / registered bodies
-			if fn.Parent() != nil && e.cs.Funcs[n] == nil {
+			// closures are analysed inline with their parent unless they have a stand-alone (modular) contract
+			if fn.Parent() != nil && !strings.HasPrefix(n, "var:") && (e.cs.Funcs[n] == nil || e.cs.Funcs[n].First("modular") == nil) {
 				continue
 			}
 			all = append(all, n)
@@ -315,6 +347,13 @@ func (e *Engine) runProperty(prop string, tmp string, timeout time.Duration) *Pr
 	}
 	pr.Queries = len(mine)
 	vs := discharge(tmp, mine, timeout)
+	if os.Getenv("GOBV_SLOW") != "" {
+		for _, v := range vs {
+			if v.Secs > 2 {
+				fmt.Printf("SLOW %.1fs %s %s %s %s\n", v.Secs, v.Result, v.Backend, v.Q.Name, v.Q.Sub)
+			}
+		}
+	}
 	for _, v := range vs {
 		pr.SolverSec += v.Secs
 		pr.ByBackend[v.Backend]++
